@@ -170,7 +170,12 @@ static int parse_set(AsmContext *asm_context)
 #endif
 
   // REVIEW - should num be divided by bytes_per_address for dsPIC and avr8?
-  asm_context->symbols.set(name, num);
+  // A label can't be given another value.
+  if (asm_context->symbols.set(name, num) != 0)
+  {
+    print_already_defined(asm_context, name);
+    return -1;
+  }
 
   //asm_context->tokens.line++;
 
